@@ -290,7 +290,8 @@ fn unbounded() -> bool {
 thread_local! {
     /// readiness variant: the layers that queue or pace callers are configured tight (bulkhead
     /// with one slot and unbounded waiting, rate limiter with 2 permits per 5 ms and a long
-    /// timeout), so that callers wait INSIDE the layer between the readiness check and the call
+    /// timeout), so that callers wait INSIDE the layer between the readiness check and the call;
+    /// the time limiter runs in its non-cancelling mode (inner call on a task of its own)
     static TIGHT: std::cell::Cell<bool> = const { std::cell::Cell::new(false) };
 }
 fn tight() -> bool {
@@ -425,6 +426,10 @@ where
                 } else {
                     Duration::from_millis(if mode == 2 { 20 } else { 10_000 })
                 });
+            if mode == 1 && tight() {
+                // the other mode of the limiter: the inner call runs on a task of its own
+                b = b.cancel_running_future(false);
+            }
             for l in &listeners {
                 let (a, c, d) = (l.clone(), l.clone(), l.clone());
                 b = b
